@@ -43,6 +43,8 @@ def source_hash(obj_or_path: str) -> dict:
     m = importlib.import_module(mod)
     o = m
     for part in qual.split("."):
+        if part.startswith("<"):
+            break
         if part.startswith("__") and not part.endswith("__") and inspect.isclass(o):
             part = "_" + o.__name__.lstrip("_") + part
         o = getattr(o, part)
